@@ -29,6 +29,10 @@
 (*      late Promise/Accepted messages for the abandoned ballot run phase 2 / *)
 (*      decide with value None.  Without it: the abandoned ballot's phase-1   *)
 (*      tally is dropped and Accepted for unknown ballots is ignored.          *)
+(*  "adopt_by_ballot_number_only"  (plausible mutation, never in the pinned    *)
+(*      code) _start_phase2 ranks the accepted ballots reported in promises by *)
+(*      their NUMBER only: on a tie between two proposers the first promise    *)
+(*      (the proposer's own) wins instead of the higher (number, node) pair.   *)
 EXTENDS Integers, Sequences, FiniteSets, TLC
 
 CONSTANTS N, Dev,
@@ -91,7 +95,8 @@ Decide(ns, n, bn, v) ==
 RECURSIVE Pick(_, _, _, _)
 Pick(resp, i, hb, hv) ==
     IF i > Len(resp) THEN hv
-    ELSE IF resp[i].ab # NoB /\ (hb = NoB \/ BLess(hb, resp[i].ab))
+    ELSE IF resp[i].ab # NoB /\ (IF "adopt_by_ballot_number_only" \in Dev THEN resp[i].ab[1] > hb[1]
+                              ELSE hb = NoB \/ BLess(hb, resp[i].ab))
          THEN Pick(resp, i + 1, resp[i].ab, resp[i].av)
          ELSE Pick(resp, i + 1, hb, hv)
 
